@@ -600,6 +600,7 @@ def unit_subset(sub, base):
         Y = sym_array("y", (NY, nfull))
         fq = FQ("_SubsetMixin", "__call__", "k_and_deriv", "diag", "__init__")
         for label, idx, sel in (("list", [4, 1, 2], [4, 1, 2]), ("slice", slice(1, 4, None), [1, 2, 3]), ("slice-open", slice(2, None, None), [2, 3, 4]), ("slice-step", slice(0, 5, 2), [0, 2, 4])):
+          try:
             r = base_recipe(base, 3)
             args, kw = r.build()
             bk = it.call(mod.ns[base], list(args), dict(kw))
@@ -616,7 +617,7 @@ def unit_subset(sub, base):
             ctx.holds("%s[%s] lock released after __call__/diag/k_and_deriv" % (sub, label), sk.fields.get("_locked") is False, "_locked=%r" % sk.fields.get("_locked"), fq)
             ctx.holds("%s[%s] shapes" % (sub, label), ks.shape == (NX, NY) and dk2.shape == (NX, NY, nfull), "", fq)
             for i in range(NX):
-                ctx.equal("%s[%s] diag[%d] = k(X,X)[%d,%d]" % (sub, label, i, i, i), H, ds[i], ks1[i, i], fq)
+                ctx.equal("%s[%s] diag[%d] = k(X,X)[%d,%d]" % (sub, label, i, i, i), H, ds[i], ks1[i, i], fq, replay=replay_subset(sub, idx))
                 for j in range(NY):
                     ctx.equal("%s[%s] k[%d,%d] = base(X[:,idx],Y[:,idx])" % (sub, label, i, j), H, ks[i, j], kb[i, j], fq)
                     ctx.equal("%s[%s] k(X)[%d,%d] = base(X[:,idx])" % (sub, label, i, j), H, ks1[i, j], kb1[i, j], fq)
@@ -632,7 +633,32 @@ def unit_subset(sub, base):
             if G.shape == Gb.shape:
                 for idx3 in itertools.product(*[range(n) for n in G.shape]):
                     ctx.equal("%s[%s] theta-gradient%s = base" % (sub, label, list(idx3)), H, G[idx3], Gb[idx3], fq)
+          except PyRaise as e:
+            ctx.holds("%s[%s] __call__/diag/k_and_deriv return (no exception for a valid index set)" % (sub, label), False, "raised %s" % (e,), fq, replay=replay_subset(sub, idx))
     return run
+
+
+def replay_subset(sub, idx):
+    def replay(wit):
+        import ciderpress.models.kernels as K
+        rng = np.random.RandomState(2)
+        X = rng.rand(3, 5)
+        kw = {"length_scale": np.array([0.8, 1.1, 1.7])}
+        if "RBF" != sub[6:] and sub != "SubsetPoly":
+            kw.update(order=2, scale=[1.0, 0.7, 0.4])
+        if sub in ("SubsetAddLLRBF", "SubsetAddRQ"):
+            kw["alpha"] = 1.3
+        if sub == "SubsetPoly":
+            kw = {"gamma": np.array([0.8, 1.1, 1.7]), "order": 2}
+        try:
+            k = getattr(K, sub)(idx, **kw)
+            d = k.diag(X)
+            full = np.diag(k(X))
+            kk, dk = k.k_and_deriv(X)
+        except Exception as e:
+            return {"reproduced": True, "raised": "%s: %s" % (type(e).__name__, e)}
+        return {"reproduced": bool(np.max(np.abs(d - full)) > 1e-10), "diag": d.tolist(), "diag_of_k": full.tolist()}
+    return replay
 
 
 def unit_spinsym(sub, base):
@@ -775,6 +801,48 @@ def unit_dftkernel(mode):
                             ctx.equal("%s dspec dkdX0T[%d,%d,%d,%d] = d k/d X0T[%d,%d,%d]" % (tag, c, s, f, g, s, f, g), [], dkd[c, s, f, g], dwant(c, s, f, g), fq,
                                       replay=replay_dftkernel(mode, nspin))
             ctx.canary("%s canary" % tag, [], dkd[0, 0, 0, 0], 2 * dwant(0, 0, 0, 0) + 1)
+            if nspin == 2:
+                # control-point covariance with a *symmetric* abstract kernel KS(x, y) = KS(y, x) (symmetry of every kernel class is proved in the leaf units)
+                def ksym(Xa, Ya=None, eval_gradient=False):
+                    Yv = Xa if Ya is None else Ya
+                    out = np.empty((Xa.shape[0], Yv.shape[0]), dtype=object)
+                    for i in range(Xa.shape[0]):
+                        for j in range(Yv.shape[0]):
+                            a_, b_ = [tm.lift(v) for v in Xa[i]], [tm.lift(v) for v in Yv[j]]
+                            if [u.id for u in a_] > [u.id for u in b_]:
+                                a_, b_ = b_, a_
+                            out[i, j] = tm.mk_fn("KS", *(a_ + b_))
+                    return out
+                S = Obj(ClassV("_AbstractSymKernel", [], mod))
+                S.fields["__call__"] = Builtin("abs.ksym", ksym)
+                dk_obj.fields["kernel"] = S
+                Kmm = it.call_method(dk_obj, "get_kctrl", [])
+                fqc = ["%s:DFTKernel.get_kctrl" % DMOD]
+                KS = lambda x, y: ksym(np.array([x], dtype=object), np.array([y], dtype=object))[0, 0]
+                ctx.holds("%s get_kctrl shape" % tag, Kmm.shape == (nctrl, nctrl), str(Kmm.shape), fqc)
+                for c in range(nctrl):
+                    for d in range(nctrl):
+                        if pol:
+                            ca, cb, da_, db_ = Xc[0, c], Xc[1, c], Xc[0, d], Xc[1, d]
+                            w = KS(ca, da_) * KS(cb, db_) + KS(ca, db_) * KS(cb, da_)
+                        else:
+                            w = KS(Xc[c], Xc[d])
+                        ctx.equal("%s get_kctrl[%d,%d] = k_aa k_bb + k_ab k_ba over control points" % (tag, c, d), [], Kmm[c, d], w, fqc, replay=replay_kctrl(mode))
+                        ctx.equal("%s get_kctrl symmetric [%d,%d]" % (tag, c, d), [], Kmm[c, d], Kmm[d, c], fqc, replay=replay_kctrl(mode))
+                # consistency with get_k: the row of get_k at a sample placed on control point d is column d of Kmm
+                Xs = np.empty((nspin, nf, ns), dtype=object)
+                for s_ in range(nspin):
+                    for f in range(nf):
+                        for g in range(ns):
+                            Xs[s_, f, g] = (Xc[s_, g, f] if pol else Xc[g, f])
+                kk = it.call_method(dk_obj, "get_k", [Xs])
+                for c in range(nctrl):
+                    for g in range(ns):
+                        if pol:
+                            ctx.equal("%s get_k at control point %d, row %d = Kmm[%d,%d]" % (tag, g, c, c, g), [], kk[c, g], Kmm[c, g], fqc, replay=replay_kctrl(mode))
+                        elif mode == "NPOL":
+                            ctx.equal("%s get_k at control point %d, row %d = Kmm[%d,%d]" % (tag, g, c, c, g), [], kk[c, g], Kmm[c, g], fqc)
+                dk_obj.fields["kernel"] = A
             if pol and nspin == 2:
                 Xsw = X0T[::-1].copy()
                 ksw = it.call_method(dk_obj, "get_k", [Xsw])
@@ -854,6 +922,25 @@ def replay_dftkernel(mode, nspin):
                     if np.max(np.abs(fdv - dkd[:, s, f, g])) > 1e-6:
                         bad.append({"s": s, "f": f, "g": g, "max_abs_diff": float(np.max(np.abs(fdv - dkd[:, s, f, g])))})
         return {"reproduced": bool(bad), "mode": mode, "nspin": nspin, "mismatches": bad[:5]}
+    return replay
+
+
+def replay_kctrl(mode):
+    def replay(wit):
+        from pyvc import native
+        native.install_shim()
+        import ciderpress.models.kernels as K
+        from ciderpress.models.dft_kernel import DFTKernel
+        from ciderpress.dft.transform_data import FeatureList, UMap
+        rng = np.random.RandomState(5)
+        nf, nctrl = 2, 4
+        fl = FeatureList([UMap(i, 0.7 + 0.1 * i) for i in range(nf)])
+        dk = DFTKernel(K.DiffRBF(length_scale=np.array([0.9, 1.3])), fl, mode, lambda X0T: np.ones(X0T.shape[::2]))
+        dk.X1ctrl = rng.rand(2, nctrl, nf) if mode == "POL" else rng.rand(nctrl, nf)
+        Kmm = dk.get_kctrl()
+        asym = float(np.max(np.abs(Kmm - Kmm.T)))
+        ev = float(np.min(np.linalg.eigvalsh(0.5 * (Kmm + Kmm.T))))
+        return {"reproduced": bool(asym > 1e-12 or ev < -1e-10), "max_asymmetry": asym, "min_eigenvalue": ev, "mode": mode}
     return replay
 
 
